@@ -160,6 +160,10 @@ pub fn c14(rep: &mut Report, scratch: &std::path::Path, rng: &mut Rng, sizes: &[
         let _ = mem.begin_batch(PutManyOpts::default());
         let mut failed = false;
         let mut i = 0usize;
+        // commits made while the file held 1000 or more embedded frames: the first of them builds the HNSW representation,
+        // every later one rebuilds the index from it (the commits that bracket updates and deletes count)
+        let mut commits_past_switch = 0usize;
+        let past_switch = |frames: &Vec<(FrameStatus, Option<Vec<f32>>)>| frames.iter().filter(|f| f.1.is_some()).count() >= 1000;
         while frames.iter().filter(|f| f.0 == FrameStatus::Active && f.1.is_some()).count() < target && !failed {
             i += 1;
             rep.eval();
@@ -181,6 +185,7 @@ pub fn c14(rep: &mut Report, scratch: &std::path::Path, rng: &mut Rng, sizes: &[
             } else {
                 // updates and deletes need committed frames
                 if let Err(e) = mem.commit() { rep.violation(&format!("C14:commit-failed:{}:{config}", super::hist::err_kind(&e)), format!("commit before update/delete failed: {e}"), detail(&log)); failed = true; break; }
+                if past_switch(&frames) { commits_past_switch += 1; }
                 let active: Vec<usize> = frames.iter().enumerate().filter(|(_, f)| f.0 == FrameStatus::Active).map(|(i, _)| i).collect();
                 if active.is_empty() { continue; }
                 let t = rng.pick(&active);
@@ -207,11 +212,14 @@ pub fn c14(rep: &mut Report, scratch: &std::path::Path, rng: &mut Rng, sizes: &[
                     }
                 }
                 if let Err(e) = mem.commit() { rep.violation(&format!("C14:commit-failed:{}:{config}", super::hist::err_kind(&e)), format!("commit after update/delete failed: {e}"), detail(&log)); failed = true; }
+                if past_switch(&frames) { commits_past_switch += 1; }
             }
         }
         let _ = mem.end_batch();
         if failed { continue; }
         if let Err(e) = mem.commit() { rep.violation("C14:commit-failed", e.to_string(), detail(&log)); continue; }
+        if past_switch(&frames) { commits_past_switch += 1; }
+        if commits_past_switch > 1 { rep.count("histories_with_an_index_rebuild_past_the_switch_before_the_first_check"); }
         let mut handle = Some(mem);
         for stage in ["after-commit", "after-crash-replay", "after-reopen", "after-doctor-vec-rebuild", "after-vacuum", "after-reopen-2"] {
             match stage {
@@ -282,7 +290,7 @@ pub fn c14(rep: &mut Report, scratch: &std::path::Path, rng: &mut Rng, sizes: &[
             // vectors; what matters for the diagnosis is whether an index rebuild (doctor, vacuum,
             // any later commit) has happened yet, not which stage it was.
             let stage = if config != "default" && expected.len() >= 1000 {
-                if matches!(stage, "after-commit") { "before-index-rebuild" } else { "after-index-rebuild" }
+                if matches!(stage, "after-commit") && commits_past_switch <= 1 { "before-index-rebuild" } else { "after-index-rebuild" }
             } else { stage };
             // (1) everything findable = exactly E
             if !expected.is_empty() {
